@@ -628,4 +628,83 @@ theorem stepOK_callState (cfg : Cfg) (P : Prog) {σ : SM} (s : Sid) (h : Inv0 id
     exact stepOK_afterCleanup cfg P _ _ h4 (by rw [d4.statefunc]; exact hsf2)
       (by unfold K; rw [d4.calls]; exact hk2)
 
+theorem InitOK.of_same {σ τ : SM} (hs : Same idle σ τ) (h : InitOK idle σ) : InitOK idle τ := by
+  unfold InitOK at *; rw [hs.fresh, hs.init]; exact h
+
+theorem stepOK_interruptArm (cfg : Cfg) (P : Prog) {σ : SM} (h : Inv0 idle ml σ)
+    (hsf : σ.statefunc.isSome = true) (hnt : σ.nextTask.isSome = true) (hre : σ.reason = none) :
+    StepOK idle ml (K idle σ) (interruptArm cfg P σ) := by
+  obtain ⟨h1, s1⟩ := inv_absorb cfg P h
+  unfold interruptArm
+  simp only
+  generalize absorb cfg P σ = τ at h1 s1 ⊢
+  have hsf1 : τ.statefunc.isSome = true := by rw [s1.statefunc]; exact hsf
+  have hk1 : K idle τ = K idle σ := s1.calls
+  split
+  · rename_i t _
+    obtain ⟨h2, d2⟩ := inv_doCleanup cfg P (kindOf t) false h1 (fun hh => by cases hh) hsf1
+      (fun hh => by rw [s1.reason, hre] at hh; cases hh)
+    exact stepOK_afterCleanup cfg P _ _ h2 (by rw [d2.statefunc]; exact hsf1)
+      (by unfold K at *; rw [d2.calls, hk1]; exact Nat.le_succ _)
+  · exact ⟨h1, by rw [hk1]; exact Nat.le_succ _⟩
+
+theorem stepOK_stepOnce (cfg : Cfg) (P : Prog) {σ : SM} (h : Inv0 idle ml σ)
+    (hsf : σ.statefunc.isSome = true) (hi : InitOK idle σ) (hk : K idle σ < 2 * ml) :
+    StepOK idle ml (K idle σ) (stepOnce cfg P σ) := by
+  obtain ⟨h1, s1⟩ := inv_absorb cfg P h
+  have hi1 := hi.of_same s1
+  unfold stepOnce
+  simp only
+  generalize absorb cfg P σ = τ at h1 s1 hi1 ⊢
+  have hsf1 : τ.statefunc.isSome = true := by rw [s1.statefunc]; exact hsf
+  have hk1 : K idle τ = K idle σ := s1.calls
+  split
+  · exact ⟨h1, by rw [hk1]; exact Nat.le_succ _⟩
+  · rename_i s hs
+    rw [← hk1]
+    split
+    · rename_i hc
+      simp only [Bool.and_eq_true, Option.isNone_iff_eq_none] at hc
+      exact stepOK_interruptArm cfg P h1 hsf1 hc.1 hc.2
+    · rename_i hc
+      apply stepOK_callState cfg P s h1 hs hi1 (by rw [hk1]; exact hk)
+      cases hn : τ.nextTask with
+      | none => exact Or.inl rfl
+      | some t =>
+        right
+        cases hr : τ.reason with
+        | none => simp [hn, hr] at hc
+        | some r => rfl
+
+/-! ### the loops -/
+
+def InnerOK (idle : Status) (ml : Nat) (k0 : Nat) : Inner → Prop
+  | .ret τ => Inv0 idle ml τ ∧ InitOK idle τ ∧ Q idle τ ∧ K idle τ ≤ k0
+  | .brk τ => Inv0 idle ml τ ∧ K idle τ ≤ k0
+  | .exhausted τ => Inv0 idle ml τ ∧ τ.statefunc.isSome = true ∧ K idle τ ≤ k0
+
+theorem innerOK_inner (cfg : Cfg) (P : Prog) (n : Nat) {σ : SM} (h : Inv0 idle ml σ)
+    (hsf : σ.statefunc.isSome = true) (hi : InitOK idle σ) (hk : K idle σ + n ≤ 2 * ml) :
+    InnerOK idle ml (K idle σ + n) (inner cfg P n σ) := by
+  induction n generalizing σ with
+  | zero => exact ⟨h, hsf, Nat.le_refl _⟩
+  | succ n ih =>
+    have h1 := stepOK_stepOnce cfg P h hsf hi (by omega)
+    unfold inner
+    split
+    · rename_i τ he; rw [he] at h1
+      exact ⟨h1.1, h1.2.1, h1.2.2.1, by have := h1.2.2.2; omega⟩
+    · rename_i τ he; rw [he] at h1
+      exact ⟨h1.1, by have := h1.2; omega⟩
+    · rename_i τ he; rw [he] at h1
+      obtain ⟨a, b, c, d⟩ := h1
+      have := ih a c b (by omega)
+      revert this
+      generalize inner cfg P n τ = r
+      intro this
+      cases r with
+      | ret τ' => exact ⟨this.1, this.2.1, this.2.2.1, by have := this.2.2.2; omega⟩
+      | brk τ' => exact ⟨this.1, by have := this.2; omega⟩
+      | exhausted τ' => exact ⟨this.1, this.2.1, by have := this.2.2; omega⟩
+
 end Frappy.SM
